@@ -27,8 +27,11 @@ Step(name, inc, r, dt) ==
 MCInit == Init /\ hist = <<[a |-> "New", inc |-> -1, r |-> resetAfter, dt |-> 0,
                             value |-> value, resetAfter |-> resetAfter, elapsed |-> FALSE]>>
 
+Bounded == Len(hist) <= MaxSteps
+
 MCIncrement ==
-    \E inc \in Incs, r \in Resets :
+    /\ Bounded
+    /\ \E inc \in Incs, r \in Resets :
         /\ Increment(inc, r)
         \* a draw whose result is not used is not a choice: fixed to the smallest value
         /\ LET usedInc == (~Elapsed /\ value < cfg.maxValue)
@@ -38,15 +41,17 @@ MCIncrement ==
               /\ hist' = Append(hist, Step("Increment", IF usedInc THEN inc ELSE -1, IF usedR THEN r ELSE -1, 0))
 
 MCReset ==
-    \E r \in Resets : Reset(r) /\ hist' = Append(hist, Step("Reset", -1, r, 0))
+    /\ Bounded
+    /\ \E r \in Resets : Reset(r) /\ hist' = Append(hist, Step("Reset", -1, r, 0))
 
 MCAdvance ==
-    \E dt \in 1..MaxDt :
+    /\ Bounded
+    /\ \E dt \in 1..MaxDt :
         /\ now + dt <= MaxNow
         /\ Advance(dt)
         /\ hist' = Append(hist, Step("Advance", -1, -1, dt))
 
-MCNext == Len(hist) <= MaxSteps /\ (MCIncrement \/ MCReset \/ MCAdvance)
+MCNext == MCIncrement \/ MCReset \/ MCAdvance
 
 MCSpec == MCInit /\ [][MCNext]_mcvars
 
